@@ -37,6 +37,14 @@ CHECKS = {
    text="TLC checks capacity, conservation, order and graceful-termination invariants of PrioV1 over all interleavings of add / replace / remove with traffic; on the real code seeded gated schedules issue AddInput/RemoveInput at random scheduler steps and Mon_Prio decides tags, no element taken from a removed or replaced channel after the call returned, capacity and exactly-once across the change, and that GracefulStop still returns.",
    note="Trusted: TLC, synctest; 'never reads again' is observed through len() of harness-owned channels and parked writers.",
    technique="TLA+ spec with dynamic inputs + TLC invariants; seeded gated schedules on real code judged by the TLA+ monitor"),
+ "C19": dict(engine="cross-cutting", cat="model_checking", design="§5 C19",
+   text="In the specifications every goroutine of a discipline is the scheduler process whose exit state is reached on every termination path (termination liveness checked by TLC: C07_Live, C16_Live); on the real code every recorded run of every engine (normal, graceful, stop, cancel, divider fault; priority v1/v2, simplified disciplines, free-running) ends with a goroutine dump after the termination signal: the monitor event Leak (goroutines with library frames remain) is the violation.",
+   note="Trusted: runtime.Stack attribution by frame name, synctest quiescence (retry with back-off in free-running mode). Handler goroutines of the simplified disciplines are not modelled in TLA+, only observed.",
+   technique="TLC termination liveness + goroutine dumps over all recorded runs judged by the TLA+ monitor"),
+ "C20": dict(engine="cross-cutting", cat="exploration", design="§5 C20, §7",
+   text="The TLA+ family cannot express the Go memory model; the specifications contribute the schedules and the ownership argument (C08). Decision: every harness binary is built with -race; free-running randomized runs with real goroutines (handlers receiving and releasing, producers, Stop/GracefulStop/AddInput/RemoveInput/cancel from other goroutines, concurrent Handle calls, consumers keeping and modifying copy-mode slices) plus the model-generated gated schedules; any race report involving the library is the violation.",
+   note="Trusted base: the Go race detector (finds races only on executed schedules). Claimed at exploration level.",
+   technique="Go race detector over model-generated and randomized schedules (exploration)"),
  "C13": dict(engine="pure-engine", cat="model_checking", design="§5 C13, §4.1",
    text="Apalache proves the postcondition for the specification's Recalculate over all 64-bit inputs (with a regression twin for the repaired branch and a vacuity twin); the Go function is bound to it by validating every recorded call - exhaustive small domain by TLC, seeded boundary-directed 64-bit calls by Apalache - against the property's postcondition.",
    note="Trusted: Apalache/Z3, TLC, the transcription RateConv.tla (itself checked for conformance on every recorded call).",
@@ -50,6 +58,29 @@ CHECKS = {
    note="Trusted: TLC; IsSuitableConfig's float expression is checked through the relations the property states, not transcribed.",
    technique="TLA+ definition of NonFatal/PickUp; TLC validation of recorded calls (B4)"),
 }
+
+def _join(prop_text, note="Trusted: TLC, Go testing/synctest virtual clock; bounded configurations (JoinSize 1..3, few elements) exhaustively, larger ones by seeded schedules."):
+    return dict(engine="join-engine", cat="model_checking", design="§5, §4.3", text=prop_text, note=note,
+                technique="explicit-time TLA+ spec + TLC; lock-step traces of the real code validated by TLC (Trace_Join/Trace_Unite) and judged by the TLA+ monitor Mon_Join")
+
+CHECKS.update({
+ "C03": _join("TLC checks the concatenation/size invariants (ghost viol set inside the send action) of the explicit-time Join/Unite specifications in the free, urgent and ready regimes; TLC-enumerated and seeded timed schedules are replayed lock-step into the real v2 join, v2 unite and v1 join (copy and no-copy) in synctest bubbles; every recorded trace is validated against the trace specification (conformance) and judged by Mon_Join: concatenation of received slices = written sequence, no empty slice, size rules."),
+ "C08": _join("Memory-ownership model (mem identities, owner) in Join/Unite checked by TLC; a retaining, scribbling consumer keeps every delivered slice, re-reads it after each later step and overwrites copy-mode slices; v1 Stop/cancel injected between delivery and release; Mon_Join decides: retained contents unchanged, copy-mode outputs never alias, no output between a no-copy delivery and its release."),
+ "C09": _join("TLC checks 'short => timeout or final' inside the send action and the greedy reference batching in untimed configurations; the real code is driven with exact virtual timestamps; Mon_Join decides greedy batching (untimed) and delivered-no-earlier-than-Timeout-after-the-previous-delivery for short non-final slices; all unite length sequences over {0,1,J-1,J,J+1} up to the bound."),
+ "C10": _join("TLC checks the age bound T + T div Div of the oldest buffered element in the urgent-with-ready-consumer regime; lock-step traces with a ready consumer (virtual clock, zero scheduling latency) for several inaccuracies and timeouts; Mon_Join decides deliveredAt - acceptedAt <= Timeout*(1+1/floor(100/inaccuracy))."),
+ "C11": _join("Unite specification with slice-valued input: TLC checks that every non-empty input slice lies wholly in one output slice, empty ones leave no trace, oversize slices are outputs of their own after the flush; all sequences of slice lengths over {0,1,J-1,J,J+1} replayed into the real unite; Mon_Join decides on the recorded boundaries."),
+})
+
+def _limit(prop_text):
+    return dict(engine="limit-engine", cat="model_checking", design="§5, §4.4", text=prop_text,
+                note="Trusted: TLC, synctest virtual clock (time.Sleep never returns early on a real clock, so exact virtual sleeps are the worst case for C04).",
+                technique="explicit-time TLA+ spec + TLC (incl. edge cover of the state graph as schedules); lock-step traces validated by TLC (Trace_Limit) and judged by the TLA+ monitor Mon_Limit")
+
+CHECKS.update({
+ "C04": _limit("TLC checks the structural invariants (batch starts >= Interval apart, <= Quantity per batch) and, in a tiny configuration with the full emission history, the cumulative and pairwise window formulas; an edge cover of the state graph plus seeded profiles (prefilled, trickle, stall-then-burst, slow consumer, 40+ intervals) are replayed lock-step into the real limit discipline; Mon_Limit applies the cumulative and the all-pairs window formula to the exact virtual emission instants."),
+ "C12": _limit("TLC checks order/losslessness, closed => everything forwarded, inClosed ~> outClosed under fairness (with vacuity twins) and the exact schedule with everything available up-front; Mon_Limit decides on recorded traces: received = written prefix, closes only after the input closed and everything was forwarded, closes by the virtual deadline, element j at exactly (j div Q)*I with a ready consumer, fewer than Quantity elements without any pause."),
+})
+
 REASON_PENDING = "check under construction in this session (engine not registered yet); see DESIGN.md §5"
 
 def main():
@@ -69,6 +100,12 @@ def main():
                         baseline_off_cmd="python3 /verif/tools/baseline.py /repo", source_commits=hooks, add_only=True),
              engines=[dict(name="pure-engine", path="/verif/lib/pure.py", serves_properties=["C13", "C14", "C18"],
                            kind_free_text="TLA+ specs of the pure functions; TLC/Apalache decide recorded calls of the real functions"),
+                      dict(name="join-engine", path="/verif/lib/join.py", serves_properties=["C03", "C08", "C09", "C10", "C11", "C16"],
+                           kind_free_text="explicit-time Join/Unite TLA+ specs (v2 join, v2 unite, v1 join); TLC; lock-step synctest traces; Trace_* conformance + Mon_Join verdicts"),
+                      dict(name="limit-engine", path="/verif/lib/limit.py", serves_properties=["C04", "C12"],
+                           kind_free_text="explicit-time Limit TLA+ spec; TLC; lock-step synctest traces; Trace_Limit conformance + Mon_Limit verdicts"),
+                      dict(name="cross-cutting", path="/verif/lib/cross.py", serves_properties=["C19", "C20"],
+                           kind_free_text="goroutine dumps after termination and the Go race detector over the runs of all engines"),
                       dict(name="priority-engine", path="/verif/lib/prio.py", serves_properties=["C01", "C02", "C05", "C06", "C07", "C15", "C16", "C17"],
                            kind_free_text="PrioV2/PrioV1 TLA+ specs; TLC model checking; gated replay of transition covers into the real scheduler; TLA+ monitors on recorded traces")],
              checks=checks,
